@@ -17,10 +17,15 @@ CONSTANTS NLongU, NLongS, NLong2
 
 Short(l, r, n) == Len(l) < n \/ Len(r) < n
 Longest(S, n) == {s \in S : Len(s) = n}
-Draws(c, LS, RS, k) == IF k <= 0 THEN {} ELSE {Case(c, RandomElement(LS), RandomElement(RS)) : d \in 1..k}
+Draws(c, LS, RS, k) == IF k <= 0 THEN {} ELSE LET ls == LS  rs == RS IN {Case(c, RandomElement(ls), RandomElement(rs)) : d \in 1..k}
 
-LongU == Draws(MainCfgU, Longest(LL1, MaxLen), Longest(RL1, MaxLen), NLongU)
-LongS == Draws(MainCfgS, Longest(Lefts1(MainCfgS), MaxLen), Longest(Rights1(MainCfgS), MaxLen), NLongS)
+\* (zero-arity definitions: TLC evaluates each of these sets once)
+LongLL1 == Longest(LL1, MaxLen)
+LongRL1 == Longest(RL1, MaxLen)
+LongSortedLL1 == Longest(Lefts1(MainCfgS), MaxLen)
+LongSortedRL1 == Longest(Rights1(MainCfgS), MaxLen)
+LongU == Draws(MainCfgU, LongLL1, LongRL1, NLongU)
+LongS == Draws(MainCfgS, LongSortedLL1, LongSortedRL1, NLongS)
 Long2 == UNION {Draws(c, Longest(Lefts2(c), MaxLen2), Longest(Rights2(c), MaxLen2), NLong2) : c \in Configs2}
 Sampled == UNION {Draws(c, Lefts1(c), Rights1(c), PerCfg) : c \in RandomSubset(NCfg, Configs1)}
 
